@@ -133,10 +133,13 @@ namespace sim
 		const int packet_size = int(p.buffer.size() + p.overhead);
 		m_queue_size -= packet_size;
 
-		forward_packet(std::move(p));
-
+		// restart the sender before handing the packet to the next hop: the
+		// next hop may synchronously send a packet back into this queue, which
+		// must not find the queue idle and start the sender a second time
 		if (m_queue.size())
 			begin_send_next_packet();
+
+		forward_packet(std::move(p));
 	}
 }
 
